@@ -161,21 +161,38 @@ def run(tier, seed):
         mode = rng.choice(["sanity", "all"])
         lcases.append(rawdata.link_line("%s its - -" % mode, cd))
         meta.append(("bad-id", fmt, k, len(ws), cd[0][0]))
-    for _ in range(npk):
+    # prefix packets that leave the protocol FSM in each of its waiting states
+    PREFIXES = [
+        [],                                                                   # initial
+        [W_IHW, itsgen.tdh(orbit=7), itsgen.data_word(0x41), itsgen.tdt(0)],   # c_IHW (continuation pending)
+        [W_IHW, itsgen.tdh(orbit=7), itsgen.data_word(0x41), itsgen.tdt(1)],   # after a complete packet
+        [W_IHW, itsgen.tdh(orbit=7, no_data=1)],                               # after a no-data TDH
+        [W_IHW, itsgen.tdh(orbit=7), itsgen.data_word(0x41)],                  # inside the data phase
+        [W_IHW],                                                              # TDH expected
+        [W_IHW, itsgen.tdh(orbit=7), itsgen.tdt(0), W_IHW],                    # c_TDH
+    ]
+    for it in range(npk):
         # too much padding, followed by a packet that must be judged from the initial state
         fmt = rng.choice([0, 2])
         p = rng.randrange(16, 60)
         n = rng.randrange(0, 12)
+        mode = rng.choice(["sanity", "all"])
+        pre = PREFIXES[it % len(PREFIXES)]
+        pk = []
+        if pre:
+            pk.append(itsgen.packet(pre, fmt=fmt, ff=None if fmt == 2 else 0, orbit=7, pages=0))
         ws = [W_IHW, itsgen.tdh(orbit=7)] + [itsgen.data_word(0x41) for _ in range(n)]
-        r1, p1 = itsgen.packet(ws, fmt=fmt, ff=p, orbit=7, pages=0)
-        ws2 = [W_IHW, itsgen.tdh(orbit=7), itsgen.data_word(0x42), itsgen.tdt(1)]
-        r2, p2 = itsgen.packet(ws2, fmt=fmt, ff=None if fmt == 2 else 0, orbit=7, pages=1)
-        cd = itsgen.layout([(r1, p1), (r2, p2)])
-        lcases.append(rawdata.link_line("sanity its - -", cd))
-        meta.append(("padding", fmt, p, n, cd[1][0]))
-        # reference: the second packet alone
-        lcases.append(rawdata.link_line("sanity its - -", [cd[1]]))
-        meta.append(("padding-ref", fmt, p, n, cd[1][0]))
+        if rng.random() < 0.5:
+            ws = [itsgen.data_word(0x41) for _ in range(n + 1)]
+        pk.append(itsgen.packet(ws, fmt=fmt, ff=p, orbit=7, pages=len(pk)))
+        ws2 = [W_IHW, itsgen.tdh(orbit=7, continuation=rng.randrange(2)), itsgen.data_word(0x42), itsgen.tdt(1)]
+        pk.append(itsgen.packet(ws2, fmt=fmt, ff=None if fmt == 2 else 0, orbit=7, pages=len(pk)))
+        cd = itsgen.layout(pk)
+        lcases.append(rawdata.link_line("%s its - -" % mode, cd))
+        meta.append(("padding", fmt, p, it % len(PREFIXES), cd[-1][0], cd[-2][0]))
+        # reference: the last packet alone
+        lcases.append(rawdata.link_line("%s its - -" % mode, [cd[-1]]))
+        meta.append(("padding-ref", fmt, p, n, cd[-1][0], 0))
     impl = [canon.canon_link(x) for x in core.run_lines(core.HARNESS_BIN, "link", lcases)]
     model = [x.strip() for x in core.run_lines(core.FPMODEL, "link", lcases)]
     d2 = set()
@@ -200,10 +217,11 @@ def run(tier, seed):
             if len(samples2) < 2:
                 samples2.append({"kind": "bad-id", "word_index": k, "format": fmt, "impl": li[:200], "model": lm[:200]})
         elif m[0] == "padding":
-            _, fmt, p, n, off2 = m
-            first = [t for t in toks if int(t.split(":")[1], 16) < off2]
-            rest = [t for t in toks if int(t.split(":")[1], 16) >= off2]
-            ref = impl[i + 1]
+            _, fmt, p, n, off2, offp = m
+            # messages of the over-padded packet (payload-level: the RDH-level running messages depend on history)
+            first = [t for t in toks if offp <= int(t.split(":")[1], 16) < off2 and t.split(":")[2] not in ("10", "11")]
+            rest = [t for t in toks if int(t.split(":")[1], 16) > off2]
+            ref = " ".join(t for t in ([] if impl[i + 1] == "-" else impl[i + 1].split()) if int(t.split(":")[1], 16) > off2) or "-"
             d2.add(("padding", fmt, p, n))
             if len(first) != 1 or first[0].split(":")[2] != "0":
                 chk.spec_violations.append({"stream": "link-packets", "case": c[:1500], "impl": li[:600],
